@@ -61,11 +61,21 @@ def confirm(src, sid, prop):
         sh("git -C %s worktree remove --force %s" % (REPO, wt))
 
 
-def run(sid, props, tier):
+def run(sid, props, tier, worktree=None):
+    """worktree=None: apply to /repo itself and revert.  worktree=<dir>: apply in that scratch worktree of /repo's HEAD and point the
+    check at it with VERIF_DEV_REPO (same code path; lets two seeds be tried at a time while /repo stays untouched)."""
+    global REPO
     dst = os.path.join(V, "seeded", sid)
     meta = json.load(open(os.path.join(dst, "meta.json")))
     props = props or [meta["property"]]
-    assert sh("git -C %s status --porcelain" % REPO).stdout.strip() == "", "/repo not clean"
+    env_prefix = ""
+    if worktree:
+        head = sh("git -C /repo rev-parse HEAD").stdout.strip()
+        assert sh("git -C %s rev-parse HEAD" % worktree).stdout.strip() == head, "scratch worktree is not at /repo's HEAD"
+        REPO = worktree
+        env_prefix = "VERIF_DEV_REPO=%s VERIF_NPROC=%s " % (worktree, os.environ.get("VERIF_NPROC", "8"))
+        meta["ran_in"] = "scratch worktree of /repo at %s (VERIF_DEV_REPO)" % head[:7]
+    assert sh("git -C %s status --porcelain --untracked-files=no" % REPO).stdout.strip() == "", "%s not clean" % REPO
     evdir = os.path.join(V, "evidence")
     bak = "/tmp/evidence-bak-%d" % os.getpid()
     shutil.copytree(evdir, bak)
@@ -75,7 +85,7 @@ def run(sid, props, tier):
         assert r.returncode == 0, r.stderr
         for p in props:
             t0 = time.time()
-            r = sh("cd %s && ./vcheck %s %s" % (V, p, tier))
+            r = sh("cd %s && %s./vcheck %s %s" % (V, env_prefix, p, tier))
             lines = r.stdout.splitlines()
             viol = [l for l in lines if l.startswith("VIOLATION")]
             clauses = sorted({c for l in lines if l.startswith("  obligation=") for c in l.split("clauses=")[1].split(" input=")[0].strip("[]").replace("'", "").split(", ")})
@@ -104,4 +114,9 @@ if __name__ == "__main__":
             i = args.index("--tier")
             tier = args[i + 1]
             del args[i:i + 2]
-        run(args[0], args[1:], tier)
+        wt = None
+        if "--worktree" in args:
+            i = args.index("--worktree")
+            wt = args[i + 1]
+            del args[i:i + 2]
+        run(args[0], args[1:], tier, wt)
